@@ -54,6 +54,8 @@ def m_len(ex, args, kw, st, fr, node):
         return _out(st, VInt(slen(v.t)))
     if isinstance(v, (VList, VTuple)):
         return _out(st, VInt(len(v.items)))
+    if type(v).__name__ == 'VTupSeq':
+        return _out(st, v.len())
     if isinstance(v, VStr):
         return _out(st, VInt(len(v.s)))
     if isinstance(v, VDict):
@@ -435,6 +437,7 @@ def mutating_method(ex, recv_node, recv, name, args, kw, st, fr, node):
             if recv.elem == 'byte' and v.elem != 'byte':
                 ok, bad = ex.split(st, isb(v.t))
                 if bad is not None:
+                    bad.assume(smt.nonbyte_witness(v.t))
                     res += _raise(ex, bad, ValueError, 'byte must be in range(0, 256) line %d' % line)
                 if ok is None:
                     return res, None
@@ -546,9 +549,38 @@ def m_int_from_bytes(ex, args, kw, st, fr, node):
     return _out(st, r)
 
 
+def _pack_rep(ex, fmt, rest, st, node):
+    """struct.pack('>' + 'H' * n, *seq) with n == len(seq) (symbolic): 2*n bytes, the k-th pair being the
+    big-endian encoding of seq[k]; struct.error iff some element is outside [0, 65536)."""
+    if fmt.prefix != '>' or fmt.unit != 'H' or len(rest) != 1 or type(rest[0]).__name__ != 'VStar':
+        raise Unsupported('struct.pack with a symbolic format')
+    q = rest[0].v
+    if not z3.is_true(z3.simplify(fmt.count.t == slen(q.t))):
+        raise Unsupported('struct.pack: format count is not syntactically len(seq)')
+    k = z3.Int(fresh_name('pk'))
+    inrange = z3.ForAll([k], z3.Implies(z3.And(0 <= k, k < slen(q.t)), z3.And(0 <= sat(q.t, k), sat(q.t, k) < 65536)),
+                        patterns=[sat(q.t, k)])
+    res = []
+    ok, bad = ex.split(st, inrange)
+    if bad is not None:
+        res += _raise(ex, bad, struct.error, 'struct.pack line %d' % node.lineno)
+    if ok is not None:
+        r = z3.Const(fresh_name('packed'), smt.Seq)
+        j = z3.Int(fresh_name('pj'))
+        ok.assume(z3.And(slen(r) == 2 * slen(q.t), isb(r)))
+        ok.assume(z3.ForAll([j], z3.Implies(z3.And(0 <= j, j < slen(q.t)),
+                                            z3.And(sat(r, 2 * j) == sat(q.t, j) / 256,
+                                                   sat(r, 2 * j + 1) == sat(q.t, j) % 256)),
+                            patterns=[sat(q.t, j)]))
+        res += _out(ok, VSeq(r, 'byte', 'bytes'))
+    return res
+
+
 @model(struct.pack)
 def m_pack(ex, args, kw, st, fr, node):
     fmt = args[0]
+    if type(fmt).__name__ == 'VStrRep':
+        return _pack_rep(ex, fmt, args[1:], st, node)
     if not isinstance(fmt, VStr) or not fmt.s.startswith('>'):
         raise Unsupported('struct.pack format')
     sizes = {'B': 1, 'H': 2, 'I': 4, 'Q': 8}
